@@ -832,6 +832,22 @@ def match_predicate(where, case, violation):
         import json as _json
         text = _json.dumps(violation.get("detail"))
         return "form_mismatch" in text and "bitmasked" in _json.dumps(lg.node_classes(case["truth"]))
+    if where.get("kind") == "unsimplified_option_in_type_through_virtual":
+        # the type of a lazy result shows an option of an option (e.g. ??int32) where the materialised array shows one:
+        # the same nesting that simplify_optiontype cannot remove across a VirtualArray, seen through type()
+        det = violation.get("detail") or {}
+        if det.get("what") != "type":
+            return False
+        lz, eg = det.get("lazy") or "", det.get("eager") or ""
+
+        def bare(t):
+            return t.replace("?", "").replace("option[", "").replace("[", "").replace("]", "")
+
+        def nopt(t):
+            return t.count("?") + t.count("option[")
+        if bare(lz) != bare(eg) or nopt(lz) <= nopt(eg):
+            return False
+        return match_predicate({"kind": "simplification_through_virtual", "structure_only": True}, case, violation)
     if where.get("kind") == "simplification_through_virtual":
         # the failing operation is one that simplifies option/union nesting (fillna / simplify / field projection), and the lazy structure has
         # a VirtualArray directly below or directly above an option-type or union node
@@ -843,7 +859,9 @@ def match_predicate(where, case, violation):
             # structure at the start need not show it) while the materialised array gave a valid layout
             return True
         import json as _json
-        if "form_mismatch:generated_contains_virtual" in _json.dumps(violation.get("detail")):
+        if where.get("structure_only"):
+            pass
+        elif "form_mismatch:generated_contains_virtual" in _json.dumps(violation.get("detail")):
             pass    # whichever operation deferred the slice: the structural condition below decides
         elif '"form_mismatch"' in _json.dumps(violation.get("detail")):
             # predicted and generated Form differ and no VirtualArray is involved in either: not this finding (a wrong
